@@ -824,6 +824,12 @@ func (fc *fileCtx) substitutable(h *helper, param types.Object, arg ast.Expr) bo
 	if !simple(arg) {
 		return false
 	}
+	// an untyped nil has no type of its own once it stands where the parameter stood (`<-nil`)
+	if id, isId := ast.Unparen(arg).(*ast.Ident); isId {
+		if _, isNil := fc.pk.Info.Uses[id].(*types.Nil); isNil {
+			return false
+		}
+	}
 	hinfo := h.f.Info()
 	ok := true
 	// a parameter holding a struct or array is the helper's own copy: anything that writes into it
@@ -997,6 +1003,10 @@ func (fc *fileCtx) plan(h *helper, call *ast.CallExpr, at token.Pos) *inlPlan {
 				if o := hinfo.Defs[nm]; o != nil && used[o] {
 					if fc.substitutable(h, o, args[i]) {
 						pl.rename[o] = fc.text(args[i].Pos(), args[i].End())
+						if tv, has := fc.pk.Info.Types[args[i]]; has && tv.Value != nil {
+							// a constant keeps the parameter's type where it is substituted (`x := n`)
+							pl.rename[o] = ts + "(" + pl.rename[o] + ")"
+						}
 						if _, isSlice := ast.Unparen(args[i]).(*ast.SliceExpr); isSlice {
 							pl.rename[o] = "(" + pl.rename[o] + ")"
 						}
